@@ -185,7 +185,7 @@ def string_st(limit, markup=True):
     short = min(cap, 10)
     pool = ["x", "A b", "é漢", "a,b", "1.5", "Tom's", 'say "hi"', "a b"]
     if markup:
-        pool += ["AT&T", "a<b", "a>b", "<&>", "a & b < c", "R&amp;D", "&lt;", "a&nbsp;b", "&quot;x&quot;", "it&apos;s", "&amp;nbsp;x", "&#38;", "a&b;c"]
+        pool += ["AT&T", "a<b", "a>b", "<&>", "a & b < c", "R&amp;D", "&lt;", "a&nbsp;b", "&quot;x&quot;", "it&apos;s", "&amp;nbsp;x", "&#38;", "a&b;c", "AT&amp;amp;T", "x&amp;nbsp;y", "&amp;lt;b&amp;gt;", "&amp;quot;q&amp;quot;", "&amp;amp;amp;"]
     base = st.one_of(
         st.sampled_from(pool).map(lambda s: s[:cap]).filter(_trimmed),
         st.text(TEXT_CH, min_size=1, max_size=short).filter(_trimmed),
